@@ -899,7 +899,7 @@ fn edit_in_place(rng: &mut Rng, v: &mut Value, counter: &mut u32) -> bool {
 /// canonicalize, edit in place, canonicalize again: the result must be the
 /// canonical form of the edited content (no memo of a previous pass may survive an edit).
 fn c10_edit_sequences(rep: &mut Report, rng: &mut Rng, id: &str) {
-	let r = gen_ijson(rng, 0);
+	let r = gen_ijson(rng, if cfg!(miri) { 3 } else { 0 });
 	let mut v = from_rval(&r);
 	let mut counter = 0u32;
 	let mut log: Vec<String> = vec![doc_of(&r)];
@@ -967,14 +967,15 @@ pub fn run_c10(cfg: &Config) -> i32 {
 	}
 	let seed = cfg.seed;
 	// every shard runs at least one case of each family: fewer shards under the interpreter
-	let shards = if cfg!(miri) { 2usize } else { 64usize };
+	let shards = if cfg!(miri) { 6usize } else { 64usize };
 	let n = cfg.budget(150_000, 4_000_000);
 	let rep = parallel(cfg.threads, shards, |i| {
 		let mut rep = Report::new();
 		let mut rng = Rng::new(seed).fork(0xc10 + i as u64);
 		let mut rd = Reader::new();
 		for k in 0..(n / shards as u64).max(1) {
-			let d = gen_dval(&mut rng, 0);
+			// under the interpreter: documents of a handful of nodes
+			let d = gen_dval(&mut rng, if cfg!(miri) { 3 } else { 0 });
 			let probe = realize(&mut rng.clone(), &d, false);
 			rep.distinct_hash(fnv(doc_of(&probe).as_bytes()));
 			c10_one(&mut rep, &mut rng, &mut rd, &d, k);
@@ -1002,8 +1003,8 @@ pub fn run_c10(cfg: &Config) -> i32 {
 			if k % 64 == 0 {
 				// depth 100..200: every level holds non-canonical numbers and keys out of order
 				// (under the interpreter: 10..20 levels, the reference rendering of hundreds of numbers is too slow there)
-				let depth = if cfg!(miri) { rng.range(10, 20) } else { rng.range(100, 200) };
-				let inner = gen_ijson(&mut rng, 3);
+				let depth = if cfg!(miri) { rng.range(4, 8) } else { rng.range(100, 200) };
+				let inner = gen_ijson(&mut rng, if cfg!(miri) { 4 } else { 3 });
 				let r = deep_wrap(&mut rng, inner, depth);
 				rep.max("deepest_canonicalized_nesting", depth as u64);
 				let d = DVal::Null;
